@@ -36,6 +36,7 @@ pub fn mathematical_days_in_year(year: i32) -> i32 {
     utils::mathematical_days_in_year(year)
 }
 
+#[cfg(feature = "tzdb")]
 pub fn epoch_days_for_year(year: i32) -> i32 {
     utils::epoch_days_for_year(year)
 }
